@@ -1,4 +1,6 @@
 fn main() {
+    // Verification hooks (off by default): declare the cfg names so guard-off builds stay warning-free.
+    println!("cargo::rustc-check-cfg=cfg(scnr_verif, scnr_verif_shuttle)");
     let default_enabled = std::env::var("CARGO_FEATURE_DEFAULT").is_ok();
     let regex_automata_enabled = std::env::var("CARGO_FEATURE_REGEX_AUTOMATA").is_ok();
 
